@@ -22,6 +22,11 @@
 //    Tolerance RANK_K = 16 eps relative, same floor (the observed worst equals the evaluation
 //    error alone, 2.3 eps; a wrong pruning rule shows up as errors of order 1, not of order eps).
 //  * structure (index < n, indices distinct, distances ascending) is exact.
+//  Magnitudes: set extents 1e-3..1e3, sets translated by up to 1e9 (unit spacing; in float the
+//  points collapse onto multiples of the ulp, the oracle uses the stored values), queries up to
+//  1e16 away (squared distances up to ~3e32 < FLT_MAX).  All bounds above are relative and hold
+//  as long as nothing overflows or underflows: fl(a-b) = (a-b)(1+d) whatever the cancellation,
+//  and the 64-bit significand of long double keeps the reference error below 2^-62 relative.
 #include <Eigen/Core>
 #include <memory>
 #include <numeric>
@@ -49,7 +54,7 @@ template<> struct TypeName<romea::core::HomogeneousCoordinates3d> {static const 
 static const char * const SET_KIND[] = {"uniform", "clustered", "collinear", "coplanar", "lattice",
   "identical", "duplicates", "multiscale"};
 static const char * const QUERY_KIND[] = {"inside", "on_data_point", "near_data_point", "far_outside",
-  "outside", "bbox_corner_face", "midpoint_tie"};
+  "outside", "bbox_corner_face", "midpoint_tie", "extreme_far"};
 
 // point of type P from Cartesian coordinates (rounded to Scalar), homogeneous w = 1
 template<class P> static P mk(const double * v)
@@ -98,13 +103,16 @@ static void run_set(vh::Ctx & c, vh::Rng & r)
   }
   // ---------------------------------------------------------------- distribution
   int kind = (int)r.range(0, 7);
-  const double scale = r.coin(0.3) ? 1.0 : r.logu(1e-3, 1e3);
+  double scale = r.coin(0.3) ? 1.0 : r.logu(1e-3, 1e3);
   double centre[3] = {0, 0, 0};
+  bool large_offset = false;
   {
-    int ck = (int)r.range(0, 3);
+    int ck = (int)r.range(0, 4);
+    if (ck == 4) {large_offset = true; scale = 1.0;}   // unit spacing, translated by 1e5..1e9 per axis
     for (int i = 0; i < D; ++i) {
       centre[i] = ck == 0 ? 0.0 : ck == 1 ? r.uni(-10, 10) * scale : ck == 2 ? r.uni(-1e3, 1e3) * scale :
-        std::ldexp(std::round(r.uni(-64, 64)), (int)std::floor(std::log2(scale)));
+        ck == 3 ? std::ldexp(std::round(r.uni(-64, 64)), (int)std::floor(std::log2(scale))) :
+        r.sign() * std::round(r.logu(1e5, 1e9));
     }
   }
   PointSet<P> pts(n);
@@ -162,7 +170,7 @@ static void run_set(vh::Ctx & c, vh::Rng & r)
           for (int a = 0; a < D; ++a) {m[a] = (int)r.range(1, 7);}
           double step = std::ldexp(1.0, (int)r.range(-3, 3));
           double off[3];
-          for (int a = 0; a < D; ++a) {off[a] = step * (double)r.range(-8, 8);}
+          for (int a = 0; a < D; ++a) {off[a] = step * (double)r.range(-8, 8) + (large_offset ? centre[a] : 0.0);}
           for (int i = 0; i < n; ++i) {
             for (int a = 0; a < D; ++a) {v[a] = off[a] + step * (double)r.range(0, m[a] - 1);}
             pts[i] = mk<P>(v);
@@ -201,6 +209,7 @@ static void run_set(vh::Ctx & c, vh::Rng & r)
   c.cat(std::string("type_") + tname);
   c.cat(std::string("set_") + SET_KIND[kind]);
   c.cat(nb);
+  if (large_offset) {c.cat("set_large_offset");}
   if (exact_dups) {c.count("sets_with_exact_duplicates");}
 
   // flat long-double copy of the Cartesian coordinates actually stored, bounding box
@@ -247,8 +256,8 @@ static void run_set(vh::Ctx & c, vh::Rng & r)
     // ------------------------------------------------------------ query point
     int qk;
     {
-      int t = (int)r.range(0, 11);
-      qk = t <= 2 ? 0 : t == 3 ? 1 : t == 4 ? 2 : t <= 7 ? 3 : t == 8 ? 4 : t == 9 ? 5 : 6;
+      int t = (int)r.range(0, 13);
+      qk = t <= 2 ? 0 : t == 3 ? 1 : t == 4 ? 2 : t <= 7 ? 3 : t == 8 ? 4 : t == 9 ? 5 : t <= 11 ? 6 : 7;
     }
     double v[3] = {0, 0, 0};
     P Q;
@@ -277,7 +286,8 @@ static void run_set(vh::Ctx & c, vh::Rng & r)
           }
         } break;
       case 3:
-      case 4: {
+      case 4:
+      case 7: {
           double dir[3] = {0, 0, 0};
           int dk = (int)r.range(0, 3);
           if (dk == 0) {dir[r.range(0, D - 1)] = r.sign();} else if (dk == 1 && kind == 2) {
@@ -288,11 +298,14 @@ static void run_set(vh::Ctx & c, vh::Rng & r)
           } else {
             unit_dir(r, D, dir);
           }
-          double far = qk == 3 ? 1e3 * r.uni(1.0, 2.0) : r.logu(0.6, 100.0);
+          // far: 1e3..2e3 extents; outside: 0.6..100 extents; extreme: absolute distance log-spaced
+          // 1e3..1e16 (squared distances up to ~1e32: finite in float and double, far above 2^64)
+          double far = qk == 3 ? 1e3 * r.uni(1.0, 2.0) * ext : qk == 4 ? r.logu(0.6, 100.0) * ext :
+            r.logu(1e3, 1e16);
           // start from the centre or from a random place inside the box
           for (int a = 0; a < D; ++a) {
             double from = r.coin() ? mid[a] : r.uni(lo[a], hi[a]);
-            v[a] = from + dir[a] * far * ext;
+            v[a] = from + dir[a] * far;
           }
           Q = mk<P>(v);
         } break;
@@ -344,6 +357,8 @@ static void run_set(vh::Ctx & c, vh::Rng & r)
     if (ties) {c.count("queries_with_exact_ties_among_k_plus_1");}
     if (k < (size_t)n && srt[k] == srt[k - 1]) {c.count("queries_with_tie_at_kth_boundary");}
     if (srt[0] == 0) {c.count("queries_at_zero_distance");}
+    if (srt[0] >= 0x1p64L) {c.count("queries_with_all_sqdist_above_2pow64");}
+    c.maxi("max_min_sqdist", (double)srt[0]);
     c.count("knn_outputs_checked", k);
     c.maxi("max_k", (double)k);
     c.maxi("max_n", (double)n);
@@ -352,7 +367,8 @@ static void run_set(vh::Ctx & c, vh::Rng & r)
     auto params = [&]() {
         return vh::Params{{"type", (double)tid}, {"dim", (double)D}, {"is_float", sizeof(S) == 4 ? 1.0 : 0.0},
           {"n", (double)n}, {"k", (double)k}, {"set_kind", (double)kind}, {"query_kind", (double)qk},
-          {"scale", scale}, {"reused_buffers", reuse ? 1.0 : 0.0}};
+          {"scale", scale}, {"reused_buffers", reuse ? 1.0 : 0.0}, {"large_offset", large_offset ? 1.0 : 0.0},
+          {"min_sqdist", (double)srt[0]}};
       };
     auto wit = [&]() {
         vh::J j;
